@@ -166,6 +166,14 @@ func Sets() []*Set {
 		Attrs: []string{"title"}, Vals: []string{"x"}, MaxRank: 4,
 		Quick: true, DupsThorough: ""})
 
+	// 3c'. the same two deleters, but the NEWER one is undone: the older deleter alone must keep the
+	// claim deleted, also when the newer deleter arrived first (a deleter list kept most-recent-first
+	// must not drop an older deleter because a newer one is already known).
+	undelNewer := A.Delete("del-del-claim-again", delClaim2.Ref, T(4))
+	add(&Set{Name: "two-deleters-newer-undone", Blobs: []hs.Blob{A.Pub, pn, setTitle, delClaim, delClaim2, undelNewer},
+		Attrs: []string{"title"}, Vals: []string{"x"}, MaxRank: 4,
+		Quick: true, DupsThorough: ""})
+
 	// 3d. a delete claim of the permanode DATED BETWEEN (or before) two attribute claims:
 	// delete claims of a permanode live in its claim list, which must stay sorted by date
 	// whatever the arrival order (the attribute readers trust the last claim to be the newest).
